@@ -838,6 +838,22 @@ func runC18Hobs(c *Ctx) {
 			if w.Len()%8 != 0 || !bytes.Equal(h.Data[:s], data) || !c18AllZero(h.Data[s:]) {
 				c.Find("c18/CreateEFIHOBGUID/size/alignment", "created GUID HOB is not 8-byte aligned with zero padding", fmt.Sprint(s))
 			}
+			// the same data handed over as a prefix of a longer, used buffer (spare capacity holding old bytes): the
+			// encoding is a function of the value, so the padding is zero whatever lies behind the slice
+			if s <= 64 {
+				buf := bytes.Repeat([]byte{0xA5}, s+16)
+				copy(buf, data)
+				if h2, err2 := abi.CreateEFIHOBGUID(u, buf[:s]); err2 == nil {
+					var w2 bytes.Buffer
+					h2.WriteTo(&w2)
+					c.Count("create/spare-capacity-buffer")
+					if !bytes.Equal(w2.Bytes(), w.Bytes()) {
+						c.Find("c18/CreateEFIHOBGUID/used-buffer/encoding-depends-on-spare-capacity", fmt.Sprintf("the same %d data bytes encode to %s from an exact slice and to %s from a slice of a used buffer", s, hx(w.Bytes()), hx(w2.Bytes())), fmt.Sprint(s))
+					}
+				} else {
+					c.Find("c18/CreateEFIHOBGUID/used-buffer/refused", "data accepted from an exact slice is refused from a slice with spare capacity", fmt.Sprint(s))
+				}
+			}
 			gb := make([]byte, 16)
 			abi.PutUUID(gb, u)
 			if !bytes.Equal(w.Bytes()[8:24], gb) {
@@ -863,4 +879,5 @@ func runC18(c *Ctx) {
 	runC18Tdx(c)
 	runC18Hobs(c)
 	runC18EventLog(c)
+	runC18File(c)
 }
